@@ -1,18 +1,18 @@
 CONSTANTS
   N = 2
-  L = 2
+  L = 1
   Cap = 1
   HasHead = TRUE
   Manual = FALSE
   HasPay = FALSE
-  HasPlans = TRUE
+  HasPlans = FALSE
   HasSerial = FALSE
   HasHist = TRUE
   HasLog = FALSE
   Verbose = FALSE
   InjCnt <- NoInj
   DefMask <- AllDef
-  MaxActs = 2
+  MaxActs = 1
   WithMonitors = FALSE
   EnvOps <- TourOps
   EnvActs <- TourActs
